@@ -19,6 +19,7 @@
 
 #include "_config.h"
 #include "_assert.h"
+#include "_template_helpers.h"
 
 #include "../profiling.h"
 #include <cstddef>
@@ -52,7 +53,10 @@ public:
     Type* new_object(execution_data& ed, Args&&... args) {
         void* allocated_object = r1::allocate(m_pool, sizeof(Type), ed);
 
+        // Return the storage to the pool if the constructor throws
+        auto guard = make_raii_guard([&] { r1::deallocate(*m_pool, allocated_object, sizeof(Type), ed); });
         auto constructed_object = new(allocated_object) Type(std::forward<Args>(args)...);
+        guard.dismiss();
         return constructed_object;
     }
 
@@ -60,7 +64,10 @@ public:
     Type* new_object(Args&&... args) {
         void* allocated_object = r1::allocate(m_pool, sizeof(Type));
 
+        // Return the storage to the pool if the constructor throws
+        auto guard = make_raii_guard([&] { r1::deallocate(*m_pool, allocated_object, sizeof(Type)); });
         auto constructed_object = new(allocated_object) Type(std::forward<Args>(args)...);
+        guard.dismiss();
         return constructed_object;
     }
 
